@@ -2454,6 +2454,9 @@ class GroupBy:
         """
         # same length and index checks as every other operation
         self._preprocess_arguments(values, mask=None)
+        if self.key_is_chunked:
+            # the kernel needs one global code per row, not chunk-local codes
+            self._unify_group_key_chunks()
         return numba_funcs.group_nearby_members(
             group_key=self.group_ikey,
             values=values,
